@@ -1154,7 +1154,10 @@ dt_strfd(char *restrict buf, size_t bsz, const char *fmt, struct dt_d_s that)
 				bp += __ordtostr(bp, eo - bp);
 			} else if (spec.bizda) {
 				/* don't print the b after an ordinal */
-				if (spec.ab == BIZDA_AFTER) {
+				if (UNLIKELY(bp >= eo)) {
+					/* no room */
+					;
+				} else if (spec.ab == BIZDA_AFTER) {
 					*bp++ = 'b';
 				} else {
 					*bp++ = 'B';
@@ -1361,7 +1364,10 @@ dt_strfddur(char *restrict buf, size_t bsz, const char *fmt, struct dt_ddur_s th
 			bp += __strfd_dur(bp, eo - bp, spec, &d, that);
 			if (spec.bizda) {
 				/* don't print the b after an ordinal */
-				if (d.flags.ab == BIZDA_AFTER) {
+				if (UNLIKELY(bp >= eo)) {
+					/* no room */
+					;
+				} else if (d.flags.ab == BIZDA_AFTER) {
 					*bp++ = 'b';
 				} else {
 					*bp++ = 'B';
